@@ -45,7 +45,7 @@ class Relabel:
     def need(self, inst, value, what):
         return self.ctx.need(self.prefix, value, what)
     def _keep(self, inst):
-        return any(inst == k or inst.startswith(k + '/') or inst.startswith(k + '|') for k in self.keep)
+        return any(inst == k or inst.startswith(k + '/') or inst.startswith(k + '|') or inst.startswith(k + '.') for k in self.keep)
     def ok(self, inst, site, detail, **kw):
         if self._keep(inst):
             self.ctx.ok(self.prefix + '/' + inst, site, detail, **kw)
